@@ -15,11 +15,13 @@ package sched
 
 import (
 	"fmt"
+	"os"
 	"runtime"
 	"sort"
 	"strconv"
 	"sync"
 	"sync/atomic"
+	"time"
 )
 
 // Chooser is implemented by explore.Exec.
@@ -125,7 +127,13 @@ type Sched struct {
 	started bool
 	ready   sync.WaitGroup
 	inPick  bool // set while the scheduler itself runs harness code (state keys): hooks are no-ops
+	beat    atomic.Int64 // progress counter for the watchdog
 }
+
+// WatchdogSeconds: if no thread reaches a scheduling point for this long (real time) the process
+// ends with a harness error instead of hanging until an outer timeout: the running thread is
+// blocked outside the scheduler (a real lock held by a parked thread, real I/O). Not an oracle.
+var WatchdogSeconds = 120
 
 var active atomic.Pointer[Sched]
 
@@ -254,7 +262,7 @@ func (s *Sched) Run() *Outcome {
 		}
 		s.threadExit()
 	}
-	<-s.done
+	s.waitDone()
 	active.Store(nil)
 	s.out.Aborted = s.aborted
 	for _, t := range s.threads {
@@ -263,6 +271,38 @@ func (s *Sched) Run() *Outcome {
 		}
 	}
 	return &s.out
+}
+
+func (s *Sched) waitDone() {
+	last, idle := s.beat.Load(), 0
+	tick := time.NewTicker(time.Second)
+	defer tick.Stop()
+	for {
+		select {
+		case <-s.done:
+			return
+		case <-tick.C:
+			if b := s.beat.Load(); b != last {
+				last, idle = b, 0
+				continue
+			}
+			idle++
+			if idle >= WatchdogSeconds {
+				name, label := "?", "?"
+				if t := s.cur; t != nil {
+					name, label = t.Name, t.label
+				}
+				fmt.Fprintf(os.Stderr, "HARNESS-ERROR scheduler watchdog: no scheduling point reached for %d s; running thread %s (last operation %q) is blocked outside the scheduler\n", WatchdogSeconds, name, label)
+				buf := make([]byte, 1<<16)
+				n := runtime.Stack(buf, true)
+				if n > 6000 {
+					n = 6000
+				}
+				fmt.Fprintf(os.Stderr, "%s\n", buf[:n])
+				os.Exit(2)
+			}
+		}
+	}
 }
 
 // abort ends the execution: every parked thread is woken and unwinds.
@@ -330,6 +370,7 @@ func (s *Sched) enabledOf(run *Thread) (en []*Thread, onlyYielders bool) {
 }
 
 func (s *Sched) pick(run *Thread) *Thread {
+	s.beat.Add(1)
 	if s.aborted != "" {
 		return nil
 	}
